@@ -14,6 +14,8 @@ CONSTANTS
   MaxRepeat = 0
   DetOrder = TRUE
   Mults <- M1
+  Orgs <- Org0
+  RewriteScratch = FALSE
   SortedDel = "scan"
   MetKeyWraps = TRUE
   SkipTooBig = TRUE
